@@ -290,7 +290,7 @@ func checkC14(w *Worker) {
 	})
 	// every special scenario with finite amounts (harness/specials.go): print, read back, print again
 	var c14Specials []specialScenario
-	for _, sc := range specialScenarios() {
+	for _, sc := range specialsFor(w.Tier) {
 		if sc.Name != "quantities-non-finite" {
 			c14Specials = append(c14Specials, sc)
 		}
